@@ -217,9 +217,9 @@ impl Prop for C02Prop {
         if rng.chance(1, 3) {
             // the same templates written as script text and parsed by the real parser
             tags.push("as-script-text");
-            let refs: Vec<&str> = targs.iter().map(|s| s.as_str()).collect();
-            let text = render_text(&refs, rng.next());
-            return Case { req: format!("c02t {} {} {}", vs, targs.join(","), enc_str(&text)), in_domain: true, nontrivial, tags };
+            // (the Lean specification `Spec.capLine` writes the line; bit k of the last token = the
+            // author quotes argument k although it is not necessary)
+            return Case { req: format!("c02t {} {} {}", vs, targs.join(","), rng.below(32)), in_domain: true, nontrivial, tags };
         }
         Case { req: format!("c02 {} {}", vs, targs.join(",")), in_domain: true, nontrivial, tags }
     }
@@ -231,11 +231,11 @@ impl Prop for C02Prop {
         }
         let m: Vec<&str> = model.split(' ').collect();
         if t[0] == "c02t" {
-            if m.len() != 3 {
+            if m.len() != 4 || !m[0].starts_with('T') {
                 return format!("no-model-output {}", model);
             }
-            let text = dec_str(t[3]).unwrap();
-            return format!("{} {} {}", m[0], m[1], real_bind_text(&vars, &text));
+            let text = dec_str(&m[0][1..]).unwrap();
+            return format!("{} {} {} {}", m[0], m[1], m[2], real_bind_text(&vars, &text));
         }
         let written = dec_list(m[0]).unwrap();
         format!("{} {} {} {}", m[0], m[1], m[2], enc_list(&real_bind(&vars, written)))
@@ -246,11 +246,11 @@ impl Prop for C02Prop {
         }
         if req.starts_with("c02t ") {
             let m: Vec<&str> = model.split(' ').collect();
-            if m.len() != 3 || m[0] != "DOM" {
+            if m.len() != 4 || m[1] != "DOM" {
                 return None;
             }
             let i: Vec<&str> = imp.split(' ').collect();
-            return Some(i.len() == 3 && i[2] == m[1]);
+            return Some(i.len() == 4 && i[3] == m[2]);
         }
         if !req.starts_with("c02 ") {
             return None;
@@ -268,15 +268,17 @@ impl Prop for C02Prop {
     fn shrink(&self, req: &str) -> Vec<String> {
         let t: Vec<&str> = req.split(' ').collect();
         let mut out = vec![];
-        if t[0] != "c02" {
+        if t[0] != "c02" && t[0] != "c02t" {
             return out;
         }
+        let op = t[0];
+        let tail = if t.len() > 3 { format!(" {}", t[3]) } else { String::new() };
         let targs: Vec<&str> = t[2].split(',').collect();
         if targs.len() > 1 {
             for i in 0..targs.len() {
                 let mut a = targs.clone();
                 a.remove(i);
-                out.push(format!("c02 {} {}", t[1], a.join(",")));
+                out.push(format!("{} {} {}{}", op, t[1], a.join(","), tail));
             }
         }
         if t[1] != "-" {
@@ -284,7 +286,7 @@ impl Prop for C02Prop {
             for i in 0..vars.len() {
                 let mut v = vars.clone();
                 v.remove(i);
-                out.push(format!("c02 {} {}", if v.is_empty() { "-".to_string() } else { v.join(",") }, t[2]));
+                out.push(format!("{} {} {}{}", op, if v.is_empty() { "-".to_string() } else { v.join(",") }, t[2], tail));
             }
         }
         for (i, a) in targs.iter().enumerate() {
@@ -296,7 +298,7 @@ impl Prop for C02Prop {
                     let mut b = targs.clone();
                     let joined = s.join("+");
                     b[i] = &joined;
-                    out.push(format!("c02 {} {}", t[1], b.join(",")));
+                    out.push(format!("{} {} {}{}", op, t[1], b.join(","), tail));
                 }
             }
         }
@@ -317,7 +319,8 @@ impl Prop for C02Prop {
             }).collect::<Vec<_>>().join("")
         }).collect();
         if t[0] == "c02t" {
-            return format!("run script line {:?} with vars={:?}", dec_str(t[3]).unwrap(), vars);
+            let refs: Vec<&str> = t[2].split(',').collect();
+            return format!("run the script line (as written by Spec.capLine, roughly) {:?} quote-bits {} with vars={:?}", render_text(&refs, t[3].parse().unwrap_or(0)), t[3], vars);
         }
         format!("bind vars={:?} written={:?}", vars, targs)
     }
